@@ -57,6 +57,14 @@ CHECKS = {
          "Exploration: for the four variants the class list, counts, priors (frequencies or user supplied, summing to one), Gaussian moments, smoothed log-probabilities with the documented denominators and their normalisation are recomputed from the data; predictions on training, recombined and perturbed rows must maximise log prior + sum of log-likelihoods computed from the reported statistics.",
          "Gaussian predict with a zero per-class variance is outside the domain and only counted.",
          "DESIGN.md section 7 C11"),
+ "C07": ("property-based testing (proptest): constructed designs with prescribed conditioning, scale and shift; normal-equation / gradient residuals of the stated objective evaluated in f64; differential between solvers",
+         "Exploration: OLS residual orthogonal to every column and summing to zero for both solvers, QR vs SVD agreement of fitted values, ridge gradient of the stated objective (standardised columns + unpenalised intercept, or raw columns with b = 0) vanishing at the reported coefficients for both solvers, Cholesky vs SVD agreement, predict = X w + b on fresh rows, n <= p rejected by ridge.",
+         "Trusts oracle.rs (one-sided Jacobi singular values, matrix products); OLS assertions are made when the measured cond([X 1]) <= 1e8.",
+         "DESIGN.md section 7 C07"),
+ "C08": ("property-based testing (proptest) against an independent coordinate-descent optimum of the stated objective; metamorphic target shift; error-reporting cases",
+         "Exploration: Lasso and elastic net objective values within 10*tol (relative) of the coordinate-descent optimum for alpha from almost-least-squares to beyond alpha_max, l1_ratio in (0,1], large target means, both normalisations; intercept identity; predict = X w + b; shifting every target moves only the intercept; invalid Lasso settings (alpha<0, tol<=0, max_iter=0, n<=p, length mismatch, constant column) return Err and do not panic or hang (watchdog).",
+         "Reference optimum by cyclic coordinate descent in harness/src/props/c08.rs; a hang is reported as inconclusive (exit 2), never as a violation.",
+         "DESIGN.md section 7 C08"),
 }
 ALL = ["C%02d" % i for i in range(1, 21)]
 NA_REASON = {}
